@@ -145,5 +145,48 @@ TE.TIES['pyfmtconv'] = {
    'bp-comments-docstrings': ed(PF, ("    def add_argument(self, key, arg):\n", "    def add_argument(self, key, arg):\n        '''register one argument'''\n"), ("        i = _info\n        for flag, count", "        i = _info\n        # the flags, one by one:\n        for flag, count")),
   }}
 
+PB = 'lib/strformat/pybrace.py'
+TE.TIES['pybracefield'] = {
+  'translators': ['pybracefield'], 'module': 'I18n.Props.C13Tie', 'tests': ['tests/test_strformat_pybrace.py'],
+  'edits': {
+   'seeded/C13-b': seeded('C13-b'), 'seeded/C13-d': seeded('C13-d'),
+   'type-c-not-int': ed(PB, ("            elif ftype in 'bcdoxX':", "            elif ftype in 'bdoxX':")),
+   'type-s-also-int': ed(PB, ("            elif ftype == 's':\n                tp = {'str'}", "            elif ftype == 's':\n                tp = {'str', 'int'}")),
+   'n-with-comma-allowed': ed(PB, ("                if comma:\n                    raise FormatError(s)\n                tp = {'int', 'float'}", "                tp = {'int', 'float'}")),
+   'comma-does-not-narrow': ed(PB, ("            if alt or sign or comma:", "            if alt or sign:")),
+   'zero-does-not-imply-align': ed(PB, ("            if (align is None) and (zero is not None):\n                align = '='\n", "")),
+   'align-test-other-char': ed(PB, ("            if align == '=':", "            if align == '<':")),
+   'width-limit-inclusive': ed(PB, ("                if width > SSIZE_MAX:", "                if width >= SSIZE_MAX:")),
+   'precision-float-only': ed(PB, ("                tp &= {'float', 'str'}", "                tp &= {'float'}")),
+   'precision-limit-dropped': ed(PB, ("                precision = int(precision)\n                if precision > SSIZE_MAX:\n                    raise FormatError(s)\n", "                precision = int(precision)\n")),
+   'conversion-without-str-allowed': ed(PB, ("            if 'str' not in tp:\n                raise FormatTypeMismatch(s)", "            pass")),
+   'conversion-a-unknown': ed(PB, ("        elif conversion in {'!s', '!r', '!a'}:", "        elif conversion in {'!s', '!r'}:")),
+   'conversion-error-class': ed(PB, ("            raise ConversionError(s)", "            raise FormatError(s)")),
+   'nested-name-ignored': ed(PB, ("                    parent.add_argument(subfield_name, subfield)", "                    parent.add_argument(None, subfield)")),
+   'nested-stored-as-field': ed(PB, ("                    parent.add_argument(subfield_name, subfield)", "                    parent.add_argument(subfield_name, self)")),
+   'mixture-and-range-swapped': ed(PB, ("        try:\n            parent.add_argument(name, self)\n        except IndexError:\n            raise ArgumentNumberingMixture(s)\n        except OverflowError:\n            raise ArgumentRangeError(s)",
+                                        "        try:\n            parent.add_argument(name, self)\n        except IndexError:\n            raise ArgumentRangeError(s)\n        except OverflowError:\n            raise ArgumentNumberingMixture(s)")),
+   'format-error-argument': ed(PB, ("            if fmatch is None:\n                raise FormatError(s)", "            if fmatch is None:\n                raise FormatError(fmt)")),
+   'add-argument-switch-at-one': ed(PB, ("            elif self._next_arg_index == 0:", "            elif self._next_arg_index == 1:")),
+   'add-argument-range-inclusive': ed(PB, ("            n = self._next_arg_index\n            if n > SSIZE_MAX:", "            n = self._next_arg_index\n            if n >= SSIZE_MAX:")),
+   'add-argument-step-two': ed(PB, ("            self._next_arg_index += 1", "            self._next_arg_index += 2")),
+   'add-argument-auto-after-manual': ed(PB, ("            if self._next_arg_index is None:\n                raise IndexError\n            n = self._next_arg_index", "            if self._next_arg_index is None:\n                self._next_arg_index = 0\n            n = self._next_arg_index")),
+   'add-argument-isdigit': ed(PB, ("        elif name.isdecimal():", "        elif name.isdigit():")),
+   # behaviour-preserving
+   'bp-rename-locals': ed(PB, ("            fmatch = _format_spec_re.match(fmt[1:])\n            if fmatch is None:\n                raise FormatError(s)\n            comma = fmatch.group('comma')\n            ftype = fmatch.group('type')\n            if ftype is None:\n                pass\n            elif ftype == 's':\n                tp = {'str'}\n            elif ftype in 'bcdoxX':\n                tp = {'int'}\n            elif ftype in 'eEfFgG%':\n                tp = {'float'}\n            elif ftype == 'n':",
+                               "            m2 = _format_spec_re.match(fmt[1:])\n            if m2 is None:\n                raise FormatError(s)\n            comma = m2.group('comma')\n            ft = m2.group('type')\n            if ft is None:\n                pass\n            elif ft == 's':\n                tp = {'str'}\n            elif ft in 'bcdoxX':\n                tp = {'int'}\n            elif ft in 'eEfFgG%':\n                tp = {'float'}\n            elif ft == 'n':"),
+                          ("            alt = fmatch.group('alt')\n            sign = fmatch.group('sign')", "            alt = m2.group('alt')\n            sign = m2.group('sign')"),
+                          ("            align = fmatch.group('align')\n            zero = fmatch.group('zero')", "            align = m2.group('align')\n            zero = m2.group('zero')"),
+                          ("            width = fmatch.group('width')", "            width = m2.group('width')"), ("            precision = fmatch.group('precision')", "            precision = m2.group('precision')")),
+   'bp-flip-comparisons': ed(PB, ("            elif ftype == 's':", "            elif 's' == ftype:"), ("                if width > SSIZE_MAX:", "                if SSIZE_MAX < width:"), ("            if align == '=':", "            if '=' == align:"),
+                             ("            elif self._next_arg_index == 0:", "            elif 0 == self._next_arg_index:")),
+   'bp-reorder-reads': ed(PB, ("            alt = fmatch.group('alt')\n            sign = fmatch.group('sign')", "            sign = fmatch.group('sign')\n            alt = fmatch.group('alt')"),
+                          ("            align = fmatch.group('align')\n            zero = fmatch.group('zero')", "            zero = fmatch.group('zero')\n            align = fmatch.group('align')")),
+   'bp-split-helper': ed(PB, ("class Field:", "def _too_large(n):\n    return n > SSIZE_MAX\n\nclass Field:"), ("                if width > SSIZE_MAX:", "                if _too_large(width):"), ("                if precision > SSIZE_MAX:", "                if _too_large(precision):")),
+   'bp-elif-to-nested-if': ed(PB, ("            elif ftype == 'n':\n                if comma:\n                    raise FormatError(s)\n                tp = {'int', 'float'}\n            else:\n                raise Error(s)",
+                                   "            else:\n                if ftype == 'n':\n                    if comma:\n                        raise FormatError(s)\n                    tp = {'int', 'float'}\n                else:\n                    raise Error(s)")),
+   'bp-comments-docstrings': ed(PB, ("    def add_argument(self, name, field):\n", "    def add_argument(self, name, field):\n        '''file a field under its key'''\n"), ("        fmt = match.group('format')\n", "        # the format specification, if any:\n        fmt = match.group('format')\n")),
+  }}
+
 if __name__ == '__main__':
     TE.main()
